@@ -11,5 +11,5 @@ trap 'rm -rf "$d"' EXIT
 rsync -a --exclude .git /repo/ "$d/repo/"
 ( cd "$d/repo" && git init -q . 2>/dev/null && git apply $rev "$patch" ) || { echo "PATCH-FAILED $patch"; exit 3; }
 rm -rf "$d/repo/.git"
-/verif/bin/mbcheck -repo "$d/repo" -verif /verif -out "$d/ev" -nocontrols -p "$props"
+"${MBCHECK:-/verif/bin/mbcheck}" -repo "$d/repo" -verif /verif -out "$d/ev" -nocontrols -p "$props"
 echo "exit=$?"
